@@ -84,6 +84,8 @@ fn parse_ifdata_item(
     context: &ParseContext,
     spec: &A2mlTypeSpec,
 ) -> Result<GenericIfData, ParserError> {
+    #[cfg(feature = "verif_hooks")]
+    crate::verif_hooks::tick();
     Ok(match spec {
         A2mlTypeSpec::None => GenericIfData::None,
         A2mlTypeSpec::Char => {
